@@ -11,6 +11,7 @@ package scanner
 //@   ensures result.data == data && result.pe == len(data)
 //@   ensures result.p == 0 && result.ts == 0 && result.te == 0 && result.top == 0 && result.cs == 113
 //@   ensures result.tokenPool != nil && result.positionPool != nil
+//@   ensures lexinv(result)
 //@   modifies nothing
 //@   props C09, C01, C06
 
@@ -27,6 +28,7 @@ package scanner
 //@   ensures len(nl.data) == old(len(nl.data)) || (len(nl.data) == old(len(nl.data)) + 1 && nl.data[len(nl.data) - 1] == p)
 //@   ensures forall i :: (0 <= i && i < old(len(nl.data))) ==> nl.data[i] == old(nl.data[i])
 //@   ensures (old(len(nl.data)) == 0 || old(nl.data[len(nl.data) - 1]) < p) ==> len(nl.data) == old(len(nl.data)) + 1
+//@   ensures arr(nl.data) == old(arr(nl.data)) || fresh(nl.data)
 //@   modifies nl.data, elems(nl.data)
 //@   props C04, C01
 
@@ -75,7 +77,7 @@ package scanner
 
 //@ func (*Lexer).isHeredocEndSince73
 //@   requires lex != nil && 1 <= p && p <= len(lex.data)
-//@   ensures result ==> (old(p) <= lex.p && lex.p <= len(lex.data))
+//@   ensures result ==> (old(p) <= lex.p && lex.p + len(lex.heredocLabel) <= len(lex.data))
 //@   ensures !result ==> lex.p == old(lex.p)
 //@   loop 0 invariant old(p) <= p && p <= len(lex.data)
 //@   loop 0 decreases len(lex.data) - p
@@ -85,6 +87,7 @@ package scanner
 //@ func (*Lexer).isHeredocEnd
 //@   requires lex != nil && lex.phpVersion != nil && 1 <= p && p <= len(lex.data)
 //@   ensures !result ==> lex.p == old(lex.p)
+//@   ensures lex.p == old(lex.p) || (p <= lex.p && lex.p + len(lex.heredocLabel) <= len(lex.data))
 //@   ensures lex.p != old(lex.p) ==> le2(7, 3, lex.phpVersion.Major, lex.phpVersion.Minor)
 //@   modifies lex.p
 //@   props C01, C09
@@ -92,12 +95,14 @@ package scanner
 //@ func (*Lexer).isNotHeredocEnd
 //@   requires lex != nil && lex.phpVersion != nil && 1 <= p && p <= len(lex.data)
 //@   ensures result ==> lex.p == old(lex.p)
+//@   ensures lex.p == old(lex.p) || (p <= lex.p && lex.p + len(lex.heredocLabel) <= len(lex.data))
 //@   modifies lex.p
 //@   props C01
 
 //@ func (*Lexer).growCallStack
 //@   requires lex != nil && 0 <= lex.top && lex.top <= len(lex.stack)
-//@   ensures lex.top < len(lex.stack) && len(lex.stack) >= old(len(lex.stack))
+//@   ensures lex.top < len(lex.stack)
+//@   ensures len(lex.stack) == old(len(lex.stack)) || (lex.top == old(len(lex.stack)) && len(lex.stack) == old(len(lex.stack)) + 1)
 //@   ensures arr(lex.stack) == old(arr(lex.stack)) || fresh(lex.stack)
 //@   ensures forall i :: (0 <= i && i < old(len(lex.stack))) ==> lex.stack[i] == old(lex.stack[i])
 //@   modifies lex.stack, elems(lex.stack)
@@ -117,14 +122,19 @@ package scanner
 //@   requires lex != nil && 0 <= lex.top && lex.top <= len(lex.stack)
 //@   ensures lex.top == old(lex.top) + 1 && lex.top <= len(lex.stack) && lex.stack[old(lex.top)] == state
 //@   ensures lex.p == old(lex.p) + 1 && lex.cs == fnext
-//@   ensures forall i :: (0 <= i && i < old(lex.top)) ==> lex.stack[i] == old(lex.stack[i])
+//@   ensures len(lex.stack) == old(len(lex.stack)) || (old(lex.top) == old(len(lex.stack)) && len(lex.stack) == old(len(lex.stack)) + 1)
+//@   ensures forall i :: (0 <= i && i < old(len(lex.stack)) && i != old(lex.top)) ==> lex.stack[i] == old(lex.stack[i])
+//@   ensures arr(lex.stack) == old(arr(lex.stack)) || fresh(lex.stack)
 //@   modifies lex.stack, elems(lex.stack), lex.top, lex.p, lex.cs
 //@   props C01
 
+// ret never leaves the stack: it clamps at the bottom, and the state it resumes is the one stored
+// in the slot it lands on (the current state is kept when the stack is empty).
 //@ func (*Lexer).ret
 //@   requires lex != nil && n >= 1 && 0 <= lex.top && lex.top <= len(lex.stack)
 //@   ensures 0 <= lex.top && lex.top <= old(lex.top) && (old(lex.top) >= n ==> lex.top == old(lex.top) - n)
 //@   ensures lex.p == old(lex.p) + 1
+//@   ensures (lex.top < len(lex.stack) ==> lex.cs == lex.stack[lex.top]) && (lex.top >= len(lex.stack) ==> lex.cs == old(lex.cs))
 //@   modifies lex.top, lex.cs, lex.p
 //@   props C01
 
@@ -151,10 +161,66 @@ package scanner
 // ts..te) and the lines of those offsets.
 //@ pred cberr(e, msg, lex) := e != nil && e.Msg == msg && e.Pos != nil && e.Pos.StartPos == lex.ts && e.Pos.EndPos == lex.te && isline(lex.newLines.data, lex.ts, e.Pos.StartLine) && isline(lex.newLines.data, lex.te - 1, e.Pos.EndLine)
 
-// The generated scanner machine. Its body is covered by the scanner obligations (E-SCAN) where
-// they are discharged; towards callers it offers this contract, whose clauses are assumptions
-// until then and are listed as such in the evidence.
+// The generated scanner machine. Between two calls the lexer satisfies lexinv: the cursor is inside
+// the buffer, the machine rests in a scanner entry state unless the input is exhausted, and every
+// state on the call stack is an entry state. NewLexer establishes it, Lex preserves it (E-SCAN).
+//@ pred stackinv(lex) := 0 <= lex.top && lex.top <= len(lex.stack) && arr(lex.stack) != arr(lex.newLines.data) && (forall i :: (0 <= i && i < len(lex.stack)) ==> entrystate(lex.stack[i])) && (forall i :: (0 <= i && i < len(lex.stack) && lex.stack[i] == lexer_en_string_var) ==> 1 <= i)
+//@ pred lexinv(lex) := lex != nil && lex.pe == len(lex.data) && lex.phpVersion != nil && 0 <= lex.p && lex.p <= lex.pe && 0 <= lex.ts && lex.ts <= lex.te && lex.te <= lex.pe && (lex.p < lex.pe ==> lex.te == lex.p) && stackinv(lex) && sorted(lex.newLines.data) && lex.tokenPool != nil && lex.positionPool != nil && len(lex.tokenPool.block) >= 1 && poolwf(lex.tokenPool) && len(lex.positionPool.block) >= 1 && poolwf(lex.positionPool) && reststate(lex.cs) && (lex.p < lex.pe ==> (entrystate(lex.cs) || lex.cs == lexer_error)) && (lex.cs == lexer_en_string_var ==> 1 <= lex.top)
 //@ func (*Lexer).Lex
-//@   requires lexwf(lex)
-//@   assume-ensures result != nil && lexwf(lex)
-//@   trusted generated scanner machine (ragel)
+//@   requires lexinv(lex)
+//@   ensures result != nil
+//@   ensures lexinv(lex)
+//@   props C01, C04
+
+// ---------------------------------------------------------------------------------------------
+// E-SCAN: the generated machine Lex is cut at its labels; the invariant of every cut is the
+// conjunction of those instances of the template below that survive pruning (a candidate that
+// cannot be proved on an incoming edge is dropped). `scan inv` lines are instantiated at every
+// cut, `scan inv-at <cuts> : e` lines at the named cuts ($E ranges over the scanner entry states),
+// `scan post` lines are proved at every return in addition to Lex's ensures clauses.
+// `entrystate(c)` holds for the states whose st_case block resets ts (read off the code on every
+// run). The joins named by `scan inline-join` are not cut points: their code is executed on every
+// path that reaches them.
+//@ scan inline-join _test_eof
+//@ scan inline-join _out
+// ragel sets act to one of the case values of the `switch lex.act` that later dispatches on it
+// (a property of the generated tables, not of any contract here): the fall-through of these switches
+// is assumed unreachable and listed as an assumption in the evidence.
+//@ scan assume-total-switch act
+//@ scan inv lex != nil
+//@ scan inv lex.pe == len(lex.data)
+//@ scan inv eof == lex.pe
+//@ scan inv tkn != nil
+//@ scan inv lex.phpVersion != nil
+//@ scan inv sorted(lex.newLines.data)
+//@ scan inv lex.tokenPool != nil && len(lex.tokenPool.block) >= 1 && poolwf(lex.tokenPool)
+//@ scan inv lex.positionPool != nil && len(lex.positionPool.block) >= 1 && poolwf(lex.positionPool)
+//@ scan inv stackinv(lex)
+//@ scan inv 1 <= lex.top
+//@ scan inv -1 <= lex.p
+//@ scan inv 0 <= lex.p
+//@ scan inv 1 <= lex.p
+//@ scan inv 2 <= lex.p
+//@ scan inv lex.p < lex.pe
+//@ scan inv lex.p <= lex.pe
+//@ scan inv 0 <= lex.ts
+//@ scan inv lex.ts <= lex.p + 1
+//@ scan inv lex.ts <= lex.p
+//@ scan inv lex.ts + 1 <= lex.p
+//@ scan inv lex.ts + 2 <= lex.p
+//@ scan inv lex.ts + 3 <= lex.p
+//@ scan inv lex.ts + 4 <= lex.p
+//@ scan inv lex.ts + 5 <= lex.p
+//@ scan inv lex.ts + 6 <= lex.p
+//@ scan inv lex.ts <= lex.te
+//@ scan inv lex.ts + 1 <= lex.te
+//@ scan inv lex.ts + 2 <= lex.te
+//@ scan inv lex.ts + 3 <= lex.te
+//@ scan inv lex.te <= lex.pe
+//@ scan inv lex.te <= lex.p + 1
+//@ scan inv lex.te <= lex.p
+//@ scan inv lex.te == lex.p + 1
+//@ scan inv 0 <= lblStart && lblStart <= lblEnd && lblEnd <= lex.p + 1
+//@ scan inv 0 <= lblStart && lblStart <= lex.p + 1
+//@ scan inv-at _again, _resume : entrystate(lex.cs)
+//@ scan inv-at _again, _resume : lex.cs == $E ==> 1 <= lex.top
